@@ -153,34 +153,39 @@ theorem C13_special_dims_mem : ∀ (us : List SubModel) (d0 t0 : Nat) (sp : Spec
 /-- every entry of the `(n_samples × n_dim)` matrix is the vector entry at the published position:
     the pooled parameter of that dimension, the heterogeneous parameter of that individual and
     dimension, or the individual's own entry of the rank of that dimension among the hierarchical
-    ones.  Holds on all four paths, except that the all-heterogeneous shortcut needs a single
-    heterogeneous sub-model (see `C13_all_heterogeneous_counterexample`). -/
-theorem C13_scatter (c : Cfg) (hs : c.Sound) (hH : c.heteroDim = c.nDim → c.subs.length ≤ 1)
-    (x : Nat → ℝ) (s d : Nat) (hd : d < c.nDim) :
+    ones.  Holds on all four paths (the all-heterogeneous shortcut is taken for a single block only,
+    commit edde12c; the `legacy` shortcut: `C13_all_heterogeneous_counterexample`). -/
+theorem C13_scatter (c : Cfg) (hs : c.Sound) (x : Nat → ℝ) (s d : Nat) (hd : d < c.nDim) :
     (∀ sp ∈ c.specials, sp.a ≤ d → d < sp.b →
       reshapeBottom c (popBlock c x) (bottomBlock c x) s d
         = if sp.pooled then x (sp.ta + (d - sp.a)) else x (sp.ta + s * (sp.b - sp.a) + (d - sp.a))) ∧
     (¬ isSpecial c.specials d →
       reshapeBottom c (popBlock c x) (bottomBlock c x) s d
         = x (c.nTop + s * c.nHdim + (d - below c.specials d))) :=
-  reshapeBottom_spec c hs hH (popBlock c x) (bottomBlock c x) s d hd
+  reshapeBottom_spec c hs (popBlock c x) (bottomBlock c x) s d hd
 
-/-- Witness for the NEW finding: two heterogeneous sub-models of one dimension each, two simulated
-    individuals.  Published order of the population block: `[ID1 dim0, ID2 dim0, ID1 dim1, ID2 dim1]`.
-    The shortcut hands individual 0, dimension 1 the entry at position 1 (individual 1's dimension 0)
-    instead of position 2. -/
+/-- Witness for the finding repaired by edde12c (about the `legacy` shortcut): two heterogeneous
+    sub-models of one dimension each, two simulated individuals.  Published order of the population
+    block: `[ID1 dim0, ID2 dim0, ID1 dim1, ID2 dim1]`.  The legacy shortcut hands individual 0,
+    dimension 1 the entry at position 1 (individual 1's dimension 0) instead of position 2; the
+    repaired code (`reshapeBottom`) reads position 2, as `C13_scatter` says. -/
 theorem C13_all_heterogeneous_counterexample :
     let c : Cfg := ⟨[⟨1, 2, false, some false⟩, ⟨1, 2, false, some false⟩], 2, 1, 1, false, false⟩
     c.Sound ∧ (⟨1, 2, 2, 4, false⟩ : Special) ∈ c.specials ∧
-    ∃ x : Nat → ℝ, reshapeBottom c (popBlock c x) (bottomBlock c x) 0 1 ≠ x (2 + 0 * (2 - 1) + (1 - 1)) := by
+    (∃ x : Nat → ℝ,
+      reshapeBottomLegacy c (popBlock c x) (bottomBlock c x) 0 1 ≠ x (2 + 0 * (2 - 1) + (1 - 1))) ∧
+    ∀ x : Nat → ℝ, reshapeBottom c (popBlock c x) (bottomBlock c x) 0 1 = x (2 + 0 * (2 - 1) + (1 - 1)) := by
   intro c
-  refine ⟨?_, ?_, fun q => (q : ℝ), ?_⟩
+  refine ⟨?_, ?_, ⟨fun q => (q : ℝ), ?_⟩, ?_⟩
   · intro u hu
     simp only [c, List.mem_cons, List.mem_nil_iff, or_false, or_self] at hu
     subst hu
     simp [SubModel.Sound, c]
   · simp [c, Cfg.specials, specialsFrom]
-  · simp [c, reshapeBottom, Cfg.nHdim, Cfg.nDim, Cfg.pooledDim, Cfg.heteroDim, sumBy, popBlock]
+  · simp [c, reshapeBottomLegacy, Cfg.nHdim, Cfg.nDim, Cfg.pooledDim, Cfg.heteroDim, sumBy, popBlock]
+  · intro x
+    simp [c, reshapeBottom, Cfg.nHdim, Cfg.nDim, Cfg.pooledDim, Cfg.heteroDim, sumBy, popBlock,
+      Cfg.specials, specialsFrom, reshapeLoop, sliceAssign]
 
 /-- Witness for finding #15: a covariate-wrapped pooled model (one dimension, population parameters
     `[pooled value, shift]`, no individual-level entries, not an instance of `PooledModel`) followed by
@@ -206,7 +211,8 @@ theorem C13_wrapped_pooled_counterexample :
 /-- on the general path: the population block receives `sens + Σ` over the simulated individuals
     (pooled) / the individual's own entry (heterogeneous) of the special columns of `dbottom`; the
     individual block receives the regular columns in rank order; the noise block is untouched -/
-theorem C13_gather (c : Cfg) (hs : c.Sound) (h1 : c.nHdim ≠ c.nDim) (h2 : c.heteroDim ≠ c.nDim)
+theorem C13_gather (c : Cfg) (hs : c.Sound) (h1 : c.nHdim ≠ c.nDim)
+    (h2 : ¬ (c.heteroDim = c.nDim ∧ c.specials.length = 1))
     (h3 : c.pooledDim ≠ c.nDim) (sens : Nat → ℝ) (D : Nat → Nat → ℝ) :
     (∀ q, q < c.nTop → removeDuplicates c sens D q = sens q + contribAll c.nS D c.specials q) ∧
     (∀ s d, s < c.nS → d < c.nDim → ¬ isSpecial c.specials d →
